@@ -167,13 +167,15 @@ def gen_cases(rng, tier, ctx):
         if not vs:
             continue
         subs = {}
-        style = rng.choice(['num', 'num', 'var', 'swap', 'expr', 'index', 'boundname'])
+        style = rng.choice(['num', 'num', 'var', 'swap', 'expr', 'index', 'boundname', 'mixsame', 'mixsame'])
         chosen = [x for x in vs if rng.random() < 0.6] or [rng.choice(vs)]
         sortof = lambda x: 'i' if x in X.INTS + X.INDICES else 's'
         pairs = [(a, b) for a in vs for b in vs if a < b and sortof(a) == sortof(b)]
         if style == 'swap' and pairs:
             a, b = rng.choice(pairs)
             subs = {a: {'expr': ['v', b]}, b: {'expr': ['v', a]}}
+        elif style == 'mixsame':     # ONE mapping: a number for X and, for other names, terms that mention X
+            subs = _mixsame_subs(rng, vs)
         elif style == 'boundname':   # substituting a name that is (also) a summation index somewhere in the formula
             for i in X.INDICES:
                 subs[i] = {'num': X.g_value(rng, 'int')}
@@ -195,6 +197,7 @@ def gen_cases(rng, tier, ctx):
         prof = rng.choice(['int', 'float', 'time', 'mixed'])
         scope = X.g_scope(rng, e, prof, extra=remaining)
         scope = {x: v for x, v in scope.items() if x in remaining or x in X.fvv(e)}
+        _separate(rng, subs, scope)
         cases.append({'kind': 'partial', 'expr': e, 'route': 'sym' if rng.random() < 0.2 else 'str', 'subs': subs,
                       'scope': scope, 'path': rng.choice(['in_scope', 'in_scope', 'exact'])})
     # --- 5. operators between expressions and numbers ----------------------------------------------------------------
@@ -251,6 +254,36 @@ def gen_cases(rng, tier, ctx):
         if all(_usable(e, scope, 'in_scope') for e in es):
             cases.append({'kind': 'vec', 'exprs': es, 'scope': scope,
                           'path': rng.choice(['in_scope', 'serial', 'item', 'symfull', 'numeric'])})
+    # --- 7a. vectors: partial substitution then evaluation ------------------------------------------------------------
+    for k in range(40 * mul):
+        cfg = {'nvars': 4, 'fn': False, 'idx': False, 'ibc': False}
+        es = [X.g_expr(rng, rng.choice([1, 2, 2, 3]), (), cfg) for _ in range(rng.randint(1, 3))]
+        vs = sorted(set().union(*[X.fv(e) for e in es]))
+        if not vs:
+            continue
+        style = rng.choice(['mixsame', 'mixsame', 'num', 'var', 'swap'])
+        pairs = [(a, b) for a in vs for b in vs if a < b and (a in X.SCALARS) == (b in X.SCALARS)]
+        if style == 'mixsame':
+            subs = _mixsame_subs(rng, vs, num_types=('int', 'float'))
+        elif style == 'swap' and pairs:
+            a, b = rng.choice(pairs)
+            subs = {a: {'expr': ['v', b]}, b: {'expr': ['v', a]}}
+        else:
+            subs = {}
+            for x in [x for x in vs if rng.random() < 0.6] or [rng.choice(vs)]:
+                if x in X.INTS + X.INDICES:
+                    subs[x] = {'num': X.g_value(rng, 'int')}
+                elif style == 'var':
+                    subs[x] = {'expr': ['v', rng.choice(X.SCALARS)]}
+                else:
+                    subs[x] = {'num': X.g_value(rng, rng.choice(['int', 'float']))}
+        terms = [sub['expr'] for sub in subs.values() if 'expr' in sub]
+        remaining = (set(vs) - set(subs)) | set().union(*[X.fv(t) for t in terms] or [set()])
+        scope = X.g_scope(rng, ['c', '0', 'i'], rng.choice(['int', 'float', 'numpy']), extra=remaining)
+        _separate(rng, subs, scope)
+        case = {'kind': 'vecpartial', 'exprs': es, 'subs': subs, 'scope': scope}
+        if all(_usable(se, scope, 'in_scope') for se in _vecpartial_view(case)):
+            cases.append(case)
     # --- 7b. closed formulas and plain numbers (serialised as numbers, not strings) ---------------------------------
     for k in range(50 * mul):
         cfgc = {'nvars': 0, 'sum': rng.random() < 0.3, 'idx': False, 'ibc': False, 'ite': rng.random() < 0.2, 'fn': False}
@@ -287,6 +320,44 @@ def gen_cases(rng, tier, ctx):
         if calls:
             cases.append({'kind': 'eval', 'expr': e, 'route': 'str', 'calls': calls, 'malformed': what})
     return [c for c in cases if not _fragile_case(c)]
+
+
+def _mixsame_subs(rng, vs, num_types=('int', 'float', 'time')):
+    """a substitution that is only correct when performed SIMULTANEOUSLY: the mapping binds X to a number and other
+    names Y to terms that mention X (so the substituted formula mentions X again: it must stay free).  X need not occur
+    in the formula."""
+    ints = [x for x in vs if x in X.INTS + X.INDICES]
+    scal = [x for x in vs if x in X.SCALARS or x == 't']
+    pool = scal if scal and (not ints or rng.random() < 0.8) else ints
+    int_sorted = pool is ints
+    ys = rng.sample(pool, rng.choice([1, 1, 2]) if len(pool) > 1 else 1)
+    names = X.INTS if int_sorted else X.SCALARS
+    others = [x for x in names if x not in ys]
+    inside = [x for x in others if x in vs]
+    xname = rng.choice(inside) if inside and rng.random() < 0.7 else rng.choice(others)
+    xv = ['v', xname]
+    subs = {}
+    for y in ys:
+        shapes = [xv, ['b', 'add', xv, ['c', '1', 'i']], ['b', 'mul', ['c', '2', 'i'], xv], ['b', 'sub', ['v', y], xv],
+                  ['u', 'neg', xv]]
+        if not int_sorted:
+            shapes += [['b', 'mul', xv, xv], ['b', 'add', xv, ['c', '1/2', 'f']],
+                       ['b', 'sub', ['v', rng.choice(X.SCALARS)], xv]]
+        subs[y] = {'expr': rng.choice(shapes)}
+    subs[xname] = {'num': X.g_value(rng, 'int' if int_sorted else rng.choice(list(num_types)))}
+    for x in vs:         # sometimes further plain numbers in the same mapping
+        if x not in subs and rng.random() < 0.3:
+            subs[x] = {'num': X.g_value(rng, 'int' if x in X.INTS + X.INDICES else rng.choice(list(num_types)))}
+    return subs
+
+
+def _separate(rng, subs, scope):
+    """a name that is both substituted by a number and evaluated later gets two DIFFERENT values (a second
+    substitution pass would otherwise be invisible)"""
+    for x, sub in subs.items():
+        if 'num' in sub and x in scope and scope[x]['ty'] not in ('arri', 'arrf'):
+            while F(scope[x]['v']) == F(sub['num']['v']):
+                scope[x] = dict(scope[x], v=str(F(scope[x]['v']) + rng.choice([1, 2, 3, -1])))
 
 
 def _build_view(case):
@@ -413,6 +484,14 @@ def _guard(fn):
         return {'err': 'other:' + type(e).__name__}
 
 
+def _readback(ex):
+    """the implementation's own (auto-simplified) formula as AST, or None when it leaves the AST"""
+    try:
+        return X.from_sympy(ex.sympified_expression)
+    except Exception:
+        return None
+
+
 def _make(e, route):
     from qupulse.expressions import ExpressionScalar
     if route == 'sym':
@@ -457,7 +536,7 @@ def run_impl(case):
         ex, bad = _construct(lambda: _make(case['expr'], case['route']))
         if bad is not None:
             return bad if ('hang' in bad or 'crash' in bad) else {'vars': [], 'obs': [bad for _ in case['calls']]}
-        out = {'vars': sorted(map(str, ex.variables)), 'obs': []}
+        out = {'vars': sorted(map(str, ex.variables)), 'obs': [], 'impl_expr': _readback(ex)}
         for c in case['calls']:
             out['obs'].append(_call(ex, c['path'], c['scope']))
         if case['route'] == 'str':     # parsing the printed form back gives an equal object
@@ -472,10 +551,14 @@ def run_impl(case):
             subs[x] = _py_value(s['num']) if 'num' in s else X.to_str(s['expr'])
         kw = {x: _py_value(tv) for x, tv in case['scope'].items()}
 
+        rb = []
+
         def run():
             ex2 = ex.evaluate_symbolic(subs)
+            rb.append(_readback(ex2))
             return ex2.evaluate_with_exact_rationals(kw) if case['path'] == 'exact' else ex2.evaluate_in_scope(kw)
-        return {'obs': _guard(run)}
+        o = _guard(run)
+        return {'obs': o, 'impl_expr': rb[0] if rb else None}
     if k == 'build':
         import operator
         ea, bad = _construct(lambda: ExpressionScalar(X.to_str(case['a'])))
@@ -483,7 +566,7 @@ def run_impl(case):
             return bad if ('hang' in bad or 'crash' in bad) else {'obs': bad}
         kw = {x: _py_value(tv) for x, tv in case['scope'].items()}
         op = case['op']
-        a_vars = []
+        a_vars, rb = [], []
 
         def run():
             if op == 'neg':
@@ -498,9 +581,10 @@ def run_impl(case):
             if not isinstance(r, ExpressionScalar):
                 raise TypeError('operator returned %s' % type(r).__name__)
             a_vars.extend(ea.variables)
+            rb.append(_readback(r))
             return r.evaluate_with_exact_rationals(kw) if case['path'] == 'exact' else r.evaluate_in_scope(kw)
         o = _guard(run)
-        return {'obs': o, 'a_closed': not a_vars}
+        return {'obs': o, 'a_closed': not a_vars, 'impl_expr': rb[0] if rb else None}
     if k == 'cmp':
         import operator
         f = {'lt': operator.lt, 'le': operator.le, 'gt': operator.gt, 'ge': operator.ge}[case['op']]
@@ -550,6 +634,17 @@ def run_impl(case):
                 ev.evaluate_in_scope(kw)   # warm the per-item lambdas first
                 return np.array([ev[i].evaluate_in_scope(kw) for i in range(len(strs))])
             raise ValueError(p)
+        return {'obs': _guard(run)}
+    if k == 'vecpartial':
+        kw = {x: _py_value(tv) for x, tv in case['scope'].items()}
+        strs = [X.to_str(e) for e in case['exprs']]
+        subs = {x: (_py_value(sub['num']) if 'num' in sub else X.to_str(sub['expr'])) for x, sub in case['subs'].items()}
+
+        def run():
+            ev2 = ExpressionVector(strs).evaluate_symbolic(subs)
+            if not isinstance(ev2, ExpressionVector):
+                raise TypeError('evaluate_symbolic changed the kind of expression')
+            return ev2.evaluate_in_scope(kw)
         return {'obs': _guard(run)}
     raise ValueError(k)
 
@@ -687,7 +782,18 @@ def to_coq(case, obs):
         gsc = '[%s]' % '; '.join('(%d%%N, %s)' % (X.NID[x], X.gq(v)) for x, v in sorted(sc.items()))
         call = '(mkCall %s [] [] %s %s)' % (gsc, vlib.gbool(tol), _g_obs(obs['obs']))
         return '[CVec [%s] %s]' % ('; '.join(X.to_coq(e) for e in es), call)
+    if k == 'vecpartial':
+        sc, vc, _ = X.split_scope(case['scope'])
+        tol = any(X.analyse(se, sc, vc)['inexact'] for se in _vecpartial_view(case))
+        gsc = '[%s]' % '; '.join('(%d%%N, %s)' % (X.NID[x], X.gq(v)) for x, v in sorted(sc.items()))
+        call = '(mkCall %s [] [] %s %s)' % (gsc, vlib.gbool(tol), _g_obs(obs['obs']))
+        subs = ['(%d%%N, %s)' % (X.NID[x], X.to_coq(t)) for x, t in sorted(_subs_ast(case).items())]
+        return '[CVecPartial [%s] [%s] %s]' % ('; '.join(X.to_coq(e) for e in case['exprs']), '; '.join(subs), call)
     raise ValueError(k)
+
+
+def _vecpartial_view(case):
+    return [X.subst(_subs_ast(case), e) for e in case['exprs']]
 
 
 def _partial_view(case):
@@ -806,55 +912,24 @@ def _fails(a, tol, o):
     return not ('err' in o or 'nan' in o)
 
 
-def _int_division(e, scope):
-    """does the formula, in exact mode, divide two int-typed operands (Python true division -> float)?"""
-    found = []
-
-    def ty(e, sc):
-        k = e[0]
-        if k == 'c':
-            return 'int' if F(e[1]).denominator == 1 and e[2] != 'f' else ('float' if e[2] == 'f' else 'time')
-        if k == 'v':
-            t = sc.get(e[1], 'int')
-            return 'time' if t == 'time' else 'float' if t in ('float', 'npfloat') else 'int'
-        if k in ('nan', 'idx'):
-            return 'int'
-        if k == 'u':
-            t = ty(e[2], sc)
-            if e[1].startswith('pow:') and int(e[1][4:]) < 0 and t == 'int':
-                found.append(e)
-                return 'float'
-            return 'int' if e[1] in ('floor', 'ceil', 'not') else t
-        if k == 'b':
-            a, b = ty(e[2], sc), ty(e[3], sc)
-            if e[1] in ('div', 'floordiv') and a == 'int' and b == 'int':
-                found.append(e)
-                return 'float' if e[1] == 'div' else 'int'
-            if e[1] in X.CMPS + ['and', 'or', 'floordiv']:
-                return 'int'
-            if e[1] in ('min', 'max') and 'int' in (a, b):
-                return 'int'        # the selected operand may be the int one
-            return 'float' if 'float' in (a, b) else 'time' if 'time' in (a, b) else 'int'
-        if k == 'ite':
-            ty(e[1], sc)
-            a, b = ty(e[2], sc), ty(e[3], sc)
-            return 'float' if 'float' in (a, b) else 'time' if 'time' in (a, b) else 'int'
-        if k == 'sum':
-            ty(e[2], sc), ty(e[3], sc)
-            return ty(e[4], dict(sc, **{e[1]: 'int'}))
-        if k == 'ibc':
-            ty(e[3], sc)
-            return ty(e[1], sc)
-        return 'int'
-    ty(e, {x: tv['ty'] for x, tv in scope.items()})
-    return bool(found)
+def _exact_mode_float(e, scope, extra_types=()):
+    """exact-int-div, the class: every input is an int / TimeType / Rational, yet the typed evaluation of the formula
+    (Python arithmetic as the exact-rational lambda performs it, mirror of ModelT.evalT) ends in a float -- which can
+    only come from a true division of two ints (or a negative power of an int)"""
+    if not (_types_of(scope) | set(extra_types)) <= {'int', 'time', 'arri', 'npint'} or _has_float_const(e):
+        return False
+    try:
+        tsc, tvc = X.typed_scope(scope)
+        return X.typed_eval(e, tsc, tvc)[1] == 'float'
+    except X.EvalError:
+        return False
 
 
 def _closed_floordiv(e):
     return any(s[0] == 'b' and s[1] == 'floordiv' and not X.fv(s) and not X.fvv(s) for s in X.subterms(e))
 
 
-def _classify_call(e, kinds, scope, path, route, o, exact_required, extra_types=(), symbolic=False):
+def _classify_call(e, kinds, scope, path, route, o, exact_required, extra_types=(), symbolic=False, impl_e=None):
     sc, vc, arr = X.split_scope(scope)
     types = _types_of(scope) | set(extra_types)
     if arr:
@@ -890,10 +965,12 @@ def _classify_call(e, kinds, scope, path, route, o, exact_required, extra_types=
     if _closed_floordiv(e) and 'val' in o:
         return 'sympy-number-floordiv'
     if exact_required and _float_close(o, a['value']) and o.get('ty') in ('float', 'float64', 'TimeType') and \
-            _int_division(e, scope):
+            _exact_mode_float(impl_e if impl_e is not None else e, scope, extra_types):
         return 'exact-int-div'
     if 'err' in o and o['err'] != 'unbound' and 'ite' in kinds and X.eager_fails(e, sc, vc):
         return 'piecewise-eager'
+    if (('err' in o and o['err'] != 'unbound') or 'nan' in o) and X.eager_fails(e, sc, vc, dead=True):
+        return 'dead-part-evaluated'
     if o.get('err') == 'other:ValueError' and (path == 'symfull' or symbolic) and 'sum' in kinds and \
             kinds & {'min', 'max'}:
         return 'symbolic-minmax-sum'
@@ -912,7 +989,8 @@ def classify(case, obs):
             for c, o in zip(case['calls'], obs['obs']):
                 exact = c['path'] == 'exact' and _types_of(c['scope']) <= {'int', 'time', 'arri'} and \
                     not X.has_fn(e) and not _has_float_const(e)
-                ids.add(_classify_call(e, X.kinds(e), c['scope'], c['path'], case['route'], o, exact))
+                ids.add(_classify_call(e, X.kinds(e), c['scope'], c['path'], case['route'], o, exact,
+                                       impl_e=obs.get('impl_expr')))
             ids.discard('ok')
             return sorted(ids)[0] if ids and None not in ids else None
         if k == 'partial':
@@ -920,21 +998,28 @@ def classify(case, obs):
             if not X.capture_free(_subs_ast(case), case['expr']) and 'hang' not in o and 'crash' not in o:
                 return 'subst-capture'
             se, exact = _partial_view(case)
-            r = _classify_call(se, X.kinds(se), case['scope'], case['path'], case['route'], o, exact, symbolic=True)
+            r = _classify_call(se, X.kinds(se), case['scope'], case['path'], case['route'], o, exact, symbolic=True,
+                               impl_e=obs.get('impl_expr'))
             return None if r == 'ok' else r
-        if k == 'vec':
+        if k in ('vec', 'vecpartial'):
             o = obs['obs']
-            vpath = 'symfull' if case['path'] == 'symfull' else 'in_scope'
+            if k == 'vecpartial':
+                if any(not X.capture_free(_subs_ast(case), e) for e in case['exprs']) and 'hang' not in o and 'crash' not in o:
+                    return 'subst-capture'
+                exprs, vpath, symb = _vecpartial_view(case), 'in_scope', True
+            else:
+                exprs, vpath, symb = case['exprs'], ('symfull' if case['path'] == 'symfull' else 'in_scope'), False
             if 'err' in o:
-                for e in case['exprs']:
-                    r = _classify_call(e, X.kinds(e), case['scope'], vpath, 'str', o, False)
+                for e in exprs:
+                    r = _classify_call(e, X.kinds(e), case['scope'], vpath, 'str', o, False, symbolic=symb)
                     if r not in (None, 'ok'):
                         return r
-            if 'arr' in o and len(o['arr']) == len(case['exprs']):
+            if 'arr' in o and len(o['arr']) == len(exprs):
                 ids = set()
-                for e, v in zip(case['exprs'], o['arr']):
+                for e, v in zip(exprs, o['arr']):
                     ids.add(_classify_call(e, X.kinds(e), case['scope'], vpath, 'str',
-                                           {'val': v, 'ty': 'float'} if v is not None else {'nan': True}, False))
+                                           {'val': v, 'ty': 'float'} if v is not None else {'nan': True}, False,
+                                           symbolic=symb))
                 ids.discard('ok')
                 return sorted(ids)[0] if ids and None not in ids else None
             return None
@@ -946,7 +1031,8 @@ def classify(case, obs):
             if case['op'] == 'floordiv' and 'num' in case['b'] and obs.get('a_closed') and 'val' in o:
                 return 'sympy-number-floordiv'
             r = _classify_call(whole, X.kinds(whole), case['scope'], case['path'], 'str', o, exact,
-                               extra_types=[case['b']['num']['ty']] if 'num' in case['b'] else [])
+                               extra_types=[case['b']['num']['ty']] if 'num' in case['b'] else [],
+                               impl_e=obs.get('impl_expr'))
             return None if r == 'ok' else r
     except Exception:
         return None
